@@ -15,7 +15,7 @@ Inductive h5 :=
 Definition pval_of_tyv (t : tyv) : pval :=
   match t with
   | TNone => VNone
-  | TArr l => VArr "int64" [lenZ l] (-1) (Some l)      (* the shape array; width/token not modelled *)
+  | TArr l => VArr "?" [lenZ l] (-1) (Some l)          (* the shape array; dtype/token not modelled *)
   | TSeq l => VTuple (map VInt l)
   | TOther => VStr "?"
   end.
